@@ -147,6 +147,8 @@ def mixed_box(g):
         return Bits(*g["bits"])
     if k == "NOT":
         return G.ClassicalGate("NOT", 1, 1, [0, 1, 1, 0])
+    if k == "Noisy":
+        return G.ClassicalGate("Noisy", 1, 1, [.25, .75, .5, .5])
     if k == "Copy":
         return G.Copy()
     if k == "Match":
